@@ -1,8 +1,8 @@
 import Rpft.Drv.Json
 import Rpft.Drv.Cell
 import Rpft.Template
-namespace Rpft.Drv
-open Lean Rpft Rpft.Cell Rpft.Template
+namespace Rpft.Drv.TemplateD
+open Lean Rpft Rpft.Cell Rpft.Template Rpft.Drv Rpft.Drv.CellD
 
 /-- values: `"s"` | `[v, …]` | `{"rec": [[k, v], …]}` (key order kept) -/
 partial def tValOfJ (j : Json) : Except String Val :=
@@ -143,4 +143,4 @@ def handleTemplate (op : String) (j : Json) : Except String Json := do
       pure (strJ ast.show)
   | _ => throw s!"unknown op {op}"
 
-end Rpft.Drv
+end Rpft.Drv.TemplateD
